@@ -26,7 +26,7 @@ ASSUMPTIONS = [
 BUDGET = {"quick": 400, "thorough": 10000}
 TIME_CAP = {"quick": 75, "thorough": 1500}
 PROFILE = {"p_deriv": 0.2, "p_agg_transition": 0.1, "p_programs": 0.6, "max_steps": 10, "min_steps": 3, "extreme": 0.05, "p_function": 0.4, "p_timed": 0.4, "p_junction": 0.4, "p_output_pars": 0.5, "max_pops": 2, "p_interaction": 0.4}
-OPS = ["run", "run", "rerun", "run_noprog", "deepcopy", "pickle", "saveload", "runsim_api", "report", "rejected_run"]
+OPS = ["run", "run", "rerun", "run_noprog", "deepcopy", "pickle", "saveload", "saveload", "runsim_api", "report", "rejected_run", "scenario"]
 
 
 @st.composite
@@ -210,10 +210,38 @@ def check(case):
                         labels.add("rejected_run:other-error")
             elif op == "saveload":
                 res, _ = simcase.two_step(P, ps, pg, ins)
-                res2 = sc.loadstr(sc.dumpstr(res))
+                rep0 = canon.report_digest(res)  # what the result reports BEFORE any copy of it is made
+                how = len(done) % 3
+                res2 = [lambda: sc.loadstr(sc.dumpstr(res)), lambda: sc.dcp(res), lambda: pickle.loads(pickle.dumps(res))][how]()
                 expect(i, canon.result_digest(res), "saveload/original")
                 expect(i, canon.result_digest(res2), "saveload/loaded")
+                for which, r_ in (("copy", res2), ("original-after-copy", res)):
+                    if canon.report_digest(r_) != rep0:
+                        raise Violation(ID, "copy-changes-reports/%s" % which, "project %d: after a %s of the finished result, the %s reports something else than the result did before (used_programs / raw export / spending and coverage / flows looked up by name)" % (i, ["save+load", "deep copy", "pickle round trip"][how], which))
                 copies += 1
+            elif op == "scenario":
+                # a parameter scenario built FROM the project's parameter set (overwriting a parameter, a transfer or an interaction) and
+                # run: the parameter set that was passed in must be left as it was (checked below) and later runs must not change
+                spec_i = case["specs"][i]
+                cands = [("par", p_["name"]) for p_ in spec_i["pars"] if p_.get("db") and not p_.get("timed")]
+                cands += [("tr", tr["name"], k_) for tr in spec_i["data"]["tr"] for k_ in tr["e"]]
+                cands += [("iw", w, k_) for w, e_ in (spec_i["data"].get("iw") or {}).items() for k_ in e_]
+                if cands:
+                    tgt = cands[(len(done) * 7 + i) % len(cands)]
+                    y0 = spec_i["settings"]["start"] + spec_i["settings"]["dt"]
+                    if tgt[0] == "par":
+                        first_pop = spec_i["pops"][0] if isinstance(spec_i["pops"][0], str) else spec_i["pops"][0]["name"]
+                        sv = {tgt[1]: {first_pop: {"t": [y0], "y": [0.5]}}}
+                    else:
+                        sv = {tgt[1]: {tuple(tgt[2].split(">")): {"t": [y0], "y": [0.5]}}}
+                    try:
+                        ps_s = at.ParameterScenario(name="s", scenario_values=sv).get_parset(ps, P)
+                        simcase.two_step(P, ps_s, pg, ins)
+                        labels.add("scenario-on:" + tgt[0])
+                    except Violation:
+                        raise
+                    except Exception:
+                        labels.add("scenario:not-applicable")
         except Violation:
             raise
         except Exception as e:
